@@ -123,8 +123,9 @@ PROPS['C14'] = dict(
     assumptions=['"a rejected call changes no balance" = the handler returns Err and the chain reverts the transaction; for storage the no-write clauses are proved', 'the former owner is rejected after a transfer: induction over cfg.ownership-follows (the stored owner is exactly the last successfully configured one)'],
     explanation='every privileged arm carries "Ok => caller is the stored authority" and "caller is not the authority => Err and storage unchanged": factory execute (all four arms: owner), pair update_native_token_decimals (factory only), pair hooks (withdraw: own LP token; swap: one of its cw20 assets), router single-hop and minimum-receive messages (router itself); update_config sets the owner to exactly the requested address.',
 )
-PROPS['C16'] = dict(
-    units=[('u_factory.rs', 'B', ['factory', 'asset'])], min_tagged=14, trusted=FACTORY_TRUST,
+PROPS['C16'] = dict(  # pair-side clauses: init.stores-what-it-was-told, self-report.is-stored-record
+   
+    units=[('u_factory.rs', 'B', ['factory', 'asset']), ('u_pair.rs', 'B', None)], min_tagged=14, trusted=FACTORY_TRUST,
     assumptions=['"live cw20 contract" = the token_info query answers; lookups resolve through PAIRS[pair_key(raw(infos))] and the symmetric / injective key lemmas; the registry invariant (every record stored under the key of its own assets) is carried by lemma_registry_wf_preserved over create_pair + reply', 'identifier byte strings are shorter than 2^64 (Vec/String lengths)'],
     explanation='pair_key is verified against pair_key_spec (kind tag + length prefix + sorted identifiers); lemma_key_symmetric and lemma_key_injective give either-order lookup and one-key-per-unordered-set for all identifiers; execute_create_pair: owner only, distinct assets, rate <= 1, key not yet registered, temporary record = (key, raw infos, TRUE decimals from the allow-list / token_info), frame; reply stores exactly (tmp infos, tmp decimals, pair self-report) under the tmp key and leaves every other record untouched; query_pair reads PAIRS at the key of the raw infos.',
 )
